@@ -17,7 +17,9 @@ RULE = (
     "checkpoint layout per run (none, product = steps, product > steps). Every state of every compartment and synapse is "
     "recorded. Oracles: (1) running the segments one after the other with return_states=True / all_states= gives, "
     "concatenated, the one-shot recordings; (2) stepping manually with build_init_and_step_fn gives the one-shot "
-    "recordings; (3) the states returned with return_states=True equal the last returned column. Non-trivial: every "
+    "recordings; (3) the states returned with return_states=True equal the last returned column; (4) after the first "
+    "segment a geometric or electrical parameter of one compartment is changed with set() and the run is continued with "
+    "all_states=: the module that was simulated before and a freshly built module with the same tables must agree. Non-trivial: every "
     "segment >= 2 steps with a stimulus that is non-zero in each; distinct = hash(structure, split, layouts)."
 )
 ASSUMPTIONS = [
@@ -257,6 +259,44 @@ def judge(spec, tier="quick"):
     if man.shape != full.shape or not (np.abs(man - full) <= tol_eager).all():
         k = int(np.argmax((np.abs(man - full) > tol_eager).any(axis=0))) if man.shape == full.shape else -1
         out.violate("manual-stepping", f"manual stepping differs from integrate, first at column {k}: max diff {float(np.max(np.abs(man - full))) if man.shape == full.shape else -1.0:.3e} (shapes {man.shape} / {full.shape})")
+        return out
+    # (4) an edit between two segments: the continuation simulates the tables as they are NOW. The same module after
+    # set() and a freshly built module with that value, both continued from the same returned states, must agree.
+    if len(segs) >= 2 and not f6_hit and init["mode"] == "none" and not over:
+        L0 = int(segs[0])
+        res, err = core.call(lambda: jx.integrate(m, data_stimuli=stimuli(0, L0), return_states=True, **kw))
+        if err:
+            out.violate("raises", f"first segment before the edit raised {err.short()}", etype=err.etype, frame=err.frame)
+            return out
+        states0 = res[1]
+        key = ["capacitance", "radius", "length", "axial_resistivity"][(n + L0) % 4]
+        row = (n * 7 + L0) % N
+        newval = float(m.nodes.loc[row, key]) * 1.5
+
+        def edit(mod):
+            (gn.view_of(mod, [row]) if N > 1 else mod).set(key, newval)
+
+        def cont(mod):
+            ds = None
+            for s_ in spec["stim"]:
+                ds = gn.view_of(mod, [s_["row"]]).data_stimulate(jnp.asarray(np.asarray(s_["samples"][L0:n], float)), ds)
+            return np.asarray(jx.integrate(mod, data_stimuli=ds, all_states=states0, **kw), float)
+
+        edit(m)
+        segA, e1 = core.call(cont, m)
+        m2 = gn.build_model(spec, with_stim=False)
+        record_everything(m2, spec)
+        edit(m2)
+        segB, e2 = core.call(cont, m2)
+        if e1 or e2:
+            e = e1 or e2
+            out.violate("raises", f"continuation after set({key}) raised {e.short()}", etype=e.etype, frame=e.frame)
+            return out
+        out.evals += 1
+        out.classes.append("edit between segments")
+        if segA.shape != segB.shape or not np.allclose(segA, segB, rtol=0, atol=tol, equal_nan=True):
+            out.violate("edit-between-segments", f"after {L0} steps, set({key!r}, {newval}) on compartment {row}, then integrate(all_states=...): the module that was "
+                        f"simulated before differs from a freshly built module with the same tables by {float(np.max(np.abs(segA - segB))) if segA.shape == segB.shape else -1.0:.3e}")
     return out
 
 
